@@ -120,7 +120,8 @@ discriminator = Discriminator
 
 
 def get_discriminated_parent(cls: type) -> Optional[type]:
-    for base in cls.__mro__:
+    # the class itself is not its own parent (it would reference itself in its schema)
+    for base in cls.__mro__[1:]:
         if base in _discriminators:
             return base
     return None
